@@ -42,7 +42,7 @@ Proof.
   destruct (tx_msgs tx) as [|m0 ms0] eqn:Em; [discriminate|]. rewrite <- Em in *.
   unfold route_of in Ha.
   destruct (is_oracle_tx (tx_msgs tx)) eqn:Eo; simpl in Ha.
-  - unfold settlus_admits in Ha. rewrite Eo in Ha.
+  - unfold settlus_admits in Ha. apply andb_true_iff in Ha as [_ Ha]. rewrite Eo in Ha.
     destruct (tx_msgs tx) as [|[l|g ms|g u] [|m1 ms1]] eqn:E2; simpl in Ha; try discriminate;
       destruct l as [sm|om|a|a|a| |a]; simpl in Ha; try discriminate.
     unfold leaves_list in Hx. simpl in Hx. destruct Hx as [Hx|[]]. inversion Hx; subst om.
@@ -66,7 +66,7 @@ Proof.
   destruct (tx_msgs tx) as [|m0 ms0] eqn:Em; [discriminate|]. rewrite <- Em in *.
   unfold route_of in Ha.
   destruct (is_oracle_tx (tx_msgs tx)) eqn:Eo; simpl in Ha.
-  - unfold settlus_admits in Ha. rewrite Eo in Ha.
+  - unfold settlus_admits in Ha. apply andb_true_iff in Ha as [_ Ha]. rewrite Eo in Ha.
     destruct (tx_msgs tx) as [|[l|g ms|g u] [|m1 ms1]] eqn:E2; simpl in Ha; try discriminate;
       destruct l as [sm|om|a|a|a| |a]; simpl in Ha; try discriminate.
     unfold leaves_list in Hx. simpl in Hx. destruct Hx as [Hx|[]]. inversion Hx; subst. reflexivity.
@@ -104,12 +104,12 @@ Qed.
    (account 7) set validator 1's prevote in a mixed transaction and from inside an authz exec *)
 Example C03_old_rules_refuted :
   let o := mkO (mkOP 1 0 0 2 1 false) None [] [] [] [] [mkVal 1 1000000 true false 0] [] [] in
-  let mixed := mkTx [TLeaf (LOracle (MPrevote 7 1 [1] 0)); TLeaf (LSend 7)] 7 [7] false in
-  let nested := mkTx [TExec 7 [TLeaf (LOracle (MPrevote 7 1 [1] 0))]] 7 [7] false in
-  let alone := mkTx [TLeaf (LOracle (MPrevote 7 1 [1] 0))] 7 [7] false in
+  let mixed := mkTx [TLeaf (LOracle (MPrevote 7 1 [1] 0)); TLeaf (LSend 7)] 7 [7] false true in
+  let nested := mkTx [TExec 7 [TLeaf (LOracle (MPrevote 7 1 [1] 0))]] 7 [7] false true in
+  let alone := mkTx [TLeaf (LOracle (MPrevote 7 1 [1] 0))] 7 [7] false true in
   admits_old o 5 mixed = true /\ admits_old o 5 nested = true /\ admits_old o 5 alone = false /\
   admits o 5 mixed = false /\ admits o 5 nested = false /\ admits o 5 alone = false /\
-  admits o 5 (mkTx [TLeaf (LOracle (MPrevote 1 1 [1] 0))] 1 [1] false) = true.
+  admits o 5 (mkTx [TLeaf (LOracle (MPrevote 1 1 [1] 0))] 1 [1] false true) = true.
 Proof. vm_compute. repeat split; reflexivity. Qed.
 
 Print Assumptions C03_only_operator_or_feeder.
